@@ -118,6 +118,16 @@ def plan(tier):
                           space='promise_extra_storage over %s: 1..3 frames created and completed one after another, the factory of one of them throws [n-1, bad, sizes]' % ('default_storage' if part == 6 else 'reusable_storage') +
                                 ('; n = 3: equal sizes or the middle frame failing' if quick else '; full product'),
                           data='canary seeds symbolic', bounds='<= 3 frames, one throwing factory', outside='T\'s move constructor throwing; several failing creations'))
+    # requested sizes as symbolic data: the policy is called directly
+    for part in (0, 1, 2, 5):
+        vz = [[n - 1, ov] for n in (1, 2, 3) for ov in ((0, 1) if part in (0, 2) else (0,))]
+        units.append(dict(engine='e1', name='h_sizes_p%d' % part, tu='C19.cpp', defines=('C19_PART=%d' % part,), entry='h_sizes', unwind=14, vectors=vz,
+                          concrete=[([1, 0], [88, 3, 96, 95]), ([2, 0], [16, 0, 400, 399, 17, 5]), ([0, 0], [1, 0])] + ([([1, 1], [88, 3, 96, 95])] if part in (0, 2) else []),
+                          cbmc_extra=FS, timeout=900,
+                          space='policy %s called directly (no coroutine): 1..3 requests alloc(sz) on one storage, each block released before the next request%s [n-1, overlapping]' %
+                                (['default_storage', 'reusable_storage', 'reusable_storage_mtsafe', '', '', 'reusable_buffer_storage<vector<char>>'][part], ' or all kept alive and released at the end' if part in (0, 2) else ''),
+                          data='every requested size: arbitrary in [1, 400] (symbolic); the probed offset inside each block: arbitrary (symbolic)',
+                          bounds='<= 3 requests, sizes <= 400 bytes', outside='larger sizes; alignment requirements beyond what operator new gives'))
     units.append(dict(engine='e1', name='h_stack2', tu='C19.cpp', defines=('C19_PART=3',), entry='h_stack2', unwind=14,
                       vectors=[[w, a, b] for w in (0, 1, 2) for a in (0, 1) for b in (0, 1)], concrete=[([0, 0, 0], [5, 6]), ([1, 1, 1], [7, 8]), ([2, 0, 1], [1, 2])],
                       cbmc_extra=('--max-field-sensitivity-array-size', '300'),
